@@ -66,6 +66,8 @@ struct UniInner {
     by_canon: HashMap<Vec<u8>, MsgId>,
     msgs: Vec<Arc<MsgInfo>>,
     blocks: HashMap<Digest, Arc<Block>>,
+    /// digest signed by a vote for the block -> block
+    by_vote_digest: HashMap<Digest, Arc<Block>>,
 }
 
 /// Global intern tables (shared by all worker threads).
@@ -147,7 +149,11 @@ impl Universe {
             ConsensusMessage::SyncRequest(..) => 0,
         };
         if let ConsensusMessage::Propose(b) = &m {
-            inner.blocks.entry(b.digest()).or_insert_with(|| Arc::new(b.clone()));
+            if !inner.blocks.contains_key(&b.digest()) {
+                let a = Arc::new(b.clone());
+                inner.by_vote_digest.insert(QC { hash: b.digest(), round: b.round, votes: Vec::new() }.digest(), a.clone());
+                inner.blocks.insert(b.digest(), a);
+            }
         }
         let desc = self.describe(&m);
         let bytes = bincode::serialize(&m).unwrap();
@@ -173,7 +179,16 @@ impl Universe {
         if self.inner.read().unwrap().blocks.contains_key(&d) {
             return;
         }
-        self.inner.write().unwrap().blocks.entry(d).or_insert_with(|| Arc::new(b.clone()));
+        let mut inner = self.inner.write().unwrap();
+        if !inner.blocks.contains_key(&d) {
+            let a = Arc::new(b.clone());
+            inner.by_vote_digest.insert(QC { hash: d.clone(), round: b.round, votes: Vec::new() }.digest(), a.clone());
+            inner.blocks.insert(d, a);
+        }
+    }
+
+    pub fn block_by_vote_digest(&self, vd: &Digest) -> Option<Arc<Block>> {
+        self.inner.read().unwrap().by_vote_digest.get(vd).cloned()
     }
 
     pub fn all_blocks(&self) -> Vec<Arc<Block>> {
